@@ -1,5 +1,80 @@
-(* C03 - statements are being added as Proofs/ExecFacts.v grows *)
-From Coq Require Import List.
-From JugV Require Import Model.Deps Model.Exec Model.ExecCase.
-Theorem C03_placeholder : True. Proof. exact I. Qed.
-Print Assumptions C03_placeholder.
+(* C03 - no task starts before all its dependencies are complete; it sees their results.
+   Statements only; every proof is [exact <lemma>].  Vocabulary: see Props/C02.v and C01.v; further
+   [anc C a t] = a is a dependency of t, directly or through other tasks; [occurs d a] = task d occurs
+   syntactically in argument a - as the argument itself, inside a list/tuple/dict at any depth, as the
+   base OR the index of a tasklet, as a block of a mapped sequence or of a slice of one, under
+   CustomHash - but not under NoHash; [impl_deps]/[task_deps] = what the code's dependency walk
+   (Task.dependencies + the __jug_dependencies__ hooks) yields; [resolve st a] = value(a) against store st;
+   [task_run] = Task._execute: the function applied to the resolved arguments. *)
+From Coq Require Import List Bool PArith.
+From JugV Require Import Model.MapReduce Model.Slice Model.Deps Model.Exec Model.ExecCase Model.ExecExample
+  Proofs.DepsFacts Proofs.ExecFacts Proofs.ExecProgFacts Proofs.ExecTheorems.
+Import ListNotations.
+
+(* (a) when the function of a task is started, every task it depends on - directly or indirectly -
+   has a stored result: for every DAG, worker count and interleaving, workers joining mid-way *)
+Theorem C03_dependencies_first : forall (V : Type) (C : cfg V), framed C ->
+  forall r0 tr s w t s', reach C r0 tr s -> step C s (EStart w t) = Some s' ->
+    (forall d, In d (c_deps C t) -> results s d <> None) /\ (forall a, anc C a t -> results s a <> None).
+Proof. exact (@dependencies_first). Qed.
+Print Assumptions C03_dependencies_first.
+
+(* ... what it returns, and what is then stored, is the function applied to the stored results *)
+Theorem C03_result_is_function_of_stored_results : forall (V : Type) (C : cfg V), framed C ->
+  forall r0 tr s w t v s', reach C r0 tr s -> step C s (EDump w t v) = Some s' ->
+    exists v', results s' t = Some v' /\ c_sem C t (results s') = Ret v' /\ c_sem C t (results s) = Ret v'.
+Proof. exact (@returns_function_of_stored_results). Qed.
+Print Assumptions C03_result_is_function_of_stored_results.
+
+(* ... which, for a program, is literally: the arguments are value() of the argument expressions
+   against the store (tasklet operations applied), and the function receives exactly those *)
+Theorem C03_arguments_are_the_resolved_results : forall p t st v, c_sem (prog_cfg p) t st = Ret v ->
+  exists x a k, find_task (p_tasks p) t = Some x /\ task_inputs st x = Ok (a, k) /\
+                fsem (kind_of (p_kinds p) (t_fn x)) (t_fn x) a k = Some v.
+Proof. exact program_call_is_resolution. Qed.
+Print Assumptions C03_arguments_are_the_resolved_results.
+
+(* (b) the code's dependency walk declares exactly the tasks occurring underneath the arguments:
+   positional and keyword arguments, containers, tasklets of tasklets, task-valued indices, mapped
+   sequences and their slices *)
+Theorem C03_walk_complete : forall d t, task_occurs d t <-> In d (task_deps t).
+Proof. exact task_occurs_deps. Qed.
+Print Assumptions C03_walk_complete.
+
+Theorem C03_walk_complete_per_argument : forall d a, occurs d a <-> In d (impl_deps a).
+Proof. exact occurs_impl_deps. Qed.
+Print Assumptions C03_walk_complete_per_argument.
+
+(* ... and resolving the arguments reads the store at those tasks only, and never hits a missing
+   result once they are all stored (the worker never dies in load()) *)
+Theorem C03_resolution_reads_only_dependencies : forall kinds st st' t,
+  (forall d, In d (task_deps t) -> st d = st' d) -> task_run kinds st t = task_run kinds st' t.
+Proof. exact task_run_frame. Qed.
+Print Assumptions C03_resolution_reads_only_dependencies.
+
+Theorem C03_no_missing_result_once_dependencies_are_stored : forall kinds st t,
+  (forall d, In d (task_deps t) -> st d <> None) -> task_run kinds st t <> FMissing.
+Proof. exact task_run_defined. Qed.
+Print Assumptions C03_no_missing_result_once_dependencies_are_stored.
+
+(* the theorems of (a) apply to every generated program *)
+Theorem C03_programs_qualify : forall p, framed (prog_cfg p).
+Proof. exact programs_are_framed. Qed.
+Print Assumptions C03_programs_qualify.
+
+(* non-vacuity: in the run of Model/ExecExample.v worker 1 examines t2 = f2(t1[0]) while worker 0 is
+   still inside f1: starting f2 is not enabled then; it is enabled - and is what worker 1 does - once t1
+   is stored, and f2 receives the element 0 of t1's result *)
+Example C03_nonvacuous :
+  (exists s, run (prog_cfg ex_prog) (init (st_of [])) ex_prefix_running = Some s /\
+             c_deps (prog_cfg ex_prog) 2%positive = [1%positive] /\ results s 1%positive = None /\
+             step (prog_cfg ex_prog) s (EStart 1 2%positive) = None) /\
+  (exists s s', run (prog_cfg ex_prog) (init (st_of [])) (firstn 16 ex_trace) = Some s /\
+             step (prog_cfg ex_prog) s (EStart 1 2%positive) = Some s' /\
+             c_sem (prog_cfg ex_prog) 2%positive (results s) = Ret ex_v2 /\
+             ex_v2 = VApp 2 [VApp 1 [] []] []).
+Proof.
+  split.
+  - eexists. split; [vm_compute; reflexivity|]. split; [reflexivity|]. split; reflexivity.
+  - eexists. eexists. split; [vm_compute; reflexivity|]. split; [vm_compute; reflexivity|]. split; reflexivity.
+Qed.
